@@ -151,7 +151,7 @@ OBJ = {"none": None, "int": 5, "empty": "", "float": 1.5, "strnum": "7", "str": 
        "label_unknown": "Gamma-1.0", "label_threepart": "RC-1.0.0", "label_lower": "rc-1.0", "trailingdot": "1.", "doubledot": "1..2",
        "alnum": "1a", "dash": "a-b", "space": "a b", "md5_short": "abc123", "md5_upper": "A" * 32, "md5_31": "a" * 31,
        "layered": "layered-product", "variantid": "Server", "nan": float("nan"), "bytes": b"x86_64", "md5_nl": "a" * 32 + "\n",
-       "zerofloat": 0.0, "archlist": ["x86_64"], "numnl": "22\n", "list_int_float": [1, 1.0], "list_int_bool": [1, True], "list_of_text": ["x", "y"], "list_of_float": [1.5]}
+       "zerofloat": 0.0, "archlist": ["x86_64"], "blanks": "  \t ", "numnl": "22\n", "list_int_float": [1, 1.0], "list_int_bool": [1, True], "list_of_text": ["x", "y"], "list_of_float": [1.5]}
 FULLWIDTH = {ord(c): 0xFF10 + int(c) for c in "0123456789"}
 DOC = dict(OBJ)
 DOC.update({"emptyset": [], "int_date": 20150522})
@@ -211,6 +211,8 @@ def corrupt_object(fmt, obj, node_index, field, cls):
         setattr(node, field, "/abs/install.img")
     elif cls == "absolute" and field == "paths":
         node.checksums["/abs/file"] = ["sha256", "0" * 64]
+    elif cls == "intkey" and field == "paths":
+        node.checksums[5] = ["sha256", "0" * 64]
     elif cls == "onlyone":
         node.totaldiscs = None
     else:
